@@ -328,6 +328,12 @@ class Program:
                         m.finish(exported, funcs)
                     except RecursionError as e:
                         raise AnalysisError(f"{PKG}/{nm}.py: canonicalisation failed: {e}")
+        # the abstract interpreter follows `from .sibling import name` through this registry
+        from . import absint as _A
+        def _resolver(name, mods=self.modules):
+            return mods[name].tree if name in mods else None
+        for nm, m in self.modules.items():
+            _A.TREE_OWNER[id(m.tree)] = (_resolver, nm)
         self.t_hand = time.time() - t0
         self._gen = None
         self._db = None
